@@ -259,6 +259,7 @@ class World:
     def _mgr_select_read(self, rlist, timeout):
         net = self.net
         self.mgr_state = "select"
+        self.last_rlist = rlist          # what the manager is selecting on right now
         self._yield_to_driver()
         self.mgr_state = "running"
         net.round += 1
@@ -444,10 +445,11 @@ class World:
 
     # ----- driver helpers --------------------------------------------------------
     def pending_for_manager(self) -> bool:
-        mgr = self.mgr
-        if mgr is None:
+        """anything written towards the manager that it has not consumed / noticed yet
+        (judged at the socket seam, not from manager internals)"""
+        if self.mgr is None:
             return False
-        for s in list(mgr.modules.keys()):
+        for s in getattr(self, "last_rlist", ()):
             if s.closed:
                 continue
             if s.pending_towards():
